@@ -5,7 +5,7 @@ P = {
     "claimed": True,
     "coq_targets": ["Properties/C01.vo", "Run/Eval_C01.vo"],
     "theorems_module": "Properties.C01",
-    "theorems": ["C01_positive_only_if", "C01_failed_never_reaches_upstream", "C01_error_handler_cannot_rescue",
+    "theorems": ["C01_positive_only_if", "C01_failed_never_reaches_upstream", "C01_answer_dichotomy", "C01_error_handler_cannot_rescue",
                  "C01_silent_handler_would_rescue", "C01_panic_is_non_success", "C01_success_is_positive",
                  "C01_succeeded_b_spec", "C01_check_sound", "C01_no_authenticator_is_positive", "C01_success_redirect_is_positive",
                  "C01_nonvacuous"],
@@ -45,7 +45,15 @@ P = {
             "fail / panic / return nil silently) x request (with or without %2F); 45% of the rules are 'calm' (steps mostly succeed) so "
             "that complete pipelines are frequent; all three entry points per case.  non-trivial = a rule applied and at least one of its "
             "steps failed, was skipped by a false condition, had a condition that could not be evaluated, or panicked; distinct by hash of "
-            "the generated input",
+            "the generated input.  Second stream 'assembled' (no stubs): generated heimdall configuration (real anonymous / unauthorized / "
+            "basic_auth authenticators with and without allow_fallback_on_error, allow / deny / cel authorizers, generic contextualizers "
+            "against a local endpoint answering 200 or 500 with and without continue_pipeline_on_error, noop / header finalizers, "
+            "default / redirect(302, 301) error handlers, optional default rule, respond overrides) + generated rule sets with real CEL "
+            "`if` expressions (true, false, request dependent, run-time evaluation error) and stage-wise inheritance from the default "
+            "rule, loaded through the real configuration loader, mechanism catalogue, rule factory, file_system provider, rule-set "
+            "processor and repository (fx modules of cmd/serve minus those that only bind sockets); requests with no / good / bad "
+            "credentials, with and without %2F; the case is rendered in the model's vocabulary (what each mechanism does on that "
+            "request) and checked by the same evaluator",
     "anchors": ["internal/rules/rule_impl.go", "internal/rules/rule_executor_impl.go",
                 "internal/rules/composite_subject_creator.go", "internal/rules/composite_subject_handler.go",
                 "internal/rules/composite_error_handler.go", "internal/rules/conditional_subject_handler.go",
@@ -76,6 +84,10 @@ P = {
                 "negotiation, so the C01 model runs them with a fixed oracle",
                 "not distinguished by the stream (unreachable in heimdall): errors.Is vs identity for the package-private "
                 "errErrorHandlerNotApplicable, a CEL program error wrapping cellib.EvalError, a non-bool CEL result",
+                "assembled stream: the table 'what each real mechanism returns on the case's request' (error kinds of unauthorized, "
+                "basic_auth, deny, cel, generic contextualizer) and the stage-wise inheritance from the default rule (C14) are part of "
+                "the driver; the fx application is composed of heimdall's own modules without management/metrics/profiling and "
+                "without the service lifecycle (no sockets): the services are built by the same newService constructors in-process",
                 "shared driver helpers harness/stacks (request construction, in-memory gRPC listener, counting upstream, error-tree builder)"],
     "level_text": "Proof (kernel-checked, no axioms) over rules with step lists of any length and every outcome vector that, on all three "
                   "entry points, a positive answer (accepted status / forwarded to the upstream / Envoy OK) is given only if a rule or the "
@@ -86,7 +98,9 @@ P = {
                   "upstream is not contacted; and conversely that a completed pipeline is answered positively.  The model (rule executor, "
                   "rule, composites, conditions, error pipeline, recorded pipeline error, the three Finalize, error translation, recovery) is "
                   "tied to the code by running the real composites/conditions/error handlers/repository/executor inside the three real "
-                  "service stacks with a counting upstream on ~1200 (quick) / 30000 (thorough) generated rules x outcome vectors per run.",
+                  "service stacks with a counting upstream on ~1200 (quick) / 30000 (thorough) generated rules x outcome vectors per run, and "
+                  "by a second stream without stubs (real mechanisms, configuration loader, rule factory, provider, repository; 240 / 4000 "
+                  "requests) so that the stubs cannot hide glue.",
     "level_note": "Trusted: Coq kernel/vm_compute; the correspondence harness; mechanisms and CEL evaluation are data of the case. Hypotheses "
                   "are explicit and each is shown necessary by a theorem: no status override and no redirect code (error values, redirect "
                   "handler) in 100..299 and, for telling a positive decision answer from an error response, an accepted code in 100..299 "
